@@ -545,3 +545,167 @@ func (x *c02ctx) r10() {
 		r.Errorf("R02.10: %d shortcuts retyping a unary node found (assignment destination and result slot expected)", n)
 	}
 }
+
+// r11 (R02.11): a floating-point source is never narrowed through the other integer class on
+// its way to an integer destination: uint64(int64(f)) differs from uint64(f) for f in
+// [2^63, 2^64), and int64(uint64(f)) from int64(f) for negative f. In every generator, a
+// setter SetUint(uint64(i)) / SetInt(int64(u)) whose operand comes from the extractor of the
+// *other* integer class (genValueInt / genValueUint applied to node X) is reached only where
+// the path conditions exclude floating-point kinds for X's type (predicates applied to
+// X.typ.TypeOf(), directly or through a local). The extractors adapt to the source kind, so the
+// integer-to-integer case is exact and is not restricted.
+func (x *c02ctx) r11() {
+	ic, r := x.ic, x.r
+	info := ic.Info
+	predKinds := x.predicateKinds()
+	n := 0
+	for _, name := range sortedKeys(ic.F) {
+		fi := ic.F[name]
+		if fi.Decl.Body == nil || fi.Obj == nil || fi.Decl.Recv != nil {
+			continue
+		}
+		sig := fi.Obj.Type().(*types.Signature)
+		if sig.Params().Len() != 1 || !isNamedPtr(sig.Params().At(0).Type(), "node") {
+			continue
+		}
+		// extractor locals: v := genValueInt(c)
+		type ext struct {
+			class string
+			arg   ast.Expr
+		}
+		exts := map[types.Object]ext{}
+		typeAlias := map[types.Object]string{} // src := c.typ.TypeOf()  ->  "c"
+		ast.Inspect(fi.Decl.Body, func(m ast.Node) bool {
+			as, ok := m.(*ast.AssignStmt)
+			if !ok || len(as.Lhs) != len(as.Rhs) {
+				return true
+			}
+			for i, rhs := range as.Rhs {
+				id, ok := as.Lhs[i].(*ast.Ident)
+				if !ok {
+					continue
+				}
+				if c, ok := unparen(rhs).(*ast.CallExpr); ok && len(c.Args) == 1 {
+					switch {
+					case isCallTo(info, c, "interp.genValueInt"):
+						exts[info.ObjectOf(id)] = ext{"int", c.Args[0]}
+					case isCallTo(info, c, "interp.genValueUint"):
+						exts[info.ObjectOf(id)] = ext{"uint", c.Args[0]}
+					}
+				}
+				if s := types.ExprString(rhs); strings.HasSuffix(s, ".typ.TypeOf()") {
+					typeAlias[info.ObjectOf(id)] = strings.TrimSuffix(s, ".typ.TypeOf()")
+				}
+			}
+			return true
+		})
+		if len(exts) == 0 {
+			continue
+		}
+		for _, fl := range x.closuresOf(fi) {
+			// locals of the closure bound to the numeric result of an extractor: _, i := v(f)
+			from := map[types.Object]types.Object{}
+			ast.Inspect(fl.Body, func(m ast.Node) bool {
+				as, ok := m.(*ast.AssignStmt)
+				if !ok || len(as.Lhs) != 2 || len(as.Rhs) != 1 {
+					return true
+				}
+				if c, ok := unparen(as.Rhs[0]).(*ast.CallExpr); ok {
+					if fid := identOf(c.Fun); fid != nil {
+						if _, isExt := exts[info.ObjectOf(fid)]; isExt {
+							if vid, ok := as.Lhs[1].(*ast.Ident); ok {
+								from[info.ObjectOf(vid)] = info.ObjectOf(fid)
+							}
+						}
+					}
+				}
+				return true
+			})
+			ast.Inspect(fl.Body, func(m ast.Node) bool {
+				c, ok := m.(*ast.CallExpr)
+				if !ok || len(c.Args) != 1 {
+					return true
+				}
+				setter := ""
+				switch {
+				case isCallTo(info, c, "reflect.Value.SetUint"):
+					setter = "uint"
+				case isCallTo(info, c, "reflect.Value.SetInt"):
+					setter = "int"
+				default:
+					return true
+				}
+				// operand: conversion T(i) of an extracted value
+				conv, ok := unparen(c.Args[0]).(*ast.CallExpr)
+				if !ok || len(conv.Args) != 1 {
+					return true
+				}
+				vid := identOf(conv.Args[0])
+				if vid == nil {
+					return true
+				}
+				eobj, ok := from[info.ObjectOf(vid)]
+				if !ok {
+					return true
+				}
+				e := exts[eobj]
+				if e.class == setter {
+					return true
+				}
+				n++
+				// may the source be floating point? path conditions of the closure in the generator
+				srcName := types.ExprString(e.arg)
+				mayFloat := true
+				for _, g := range pathGuards(fi.Decl.Body, fl) {
+					if !g.want {
+						continue
+					}
+					// a conjunct that is a disjunction of predicates on the source's type, none of which accepts a float kind
+					for _, conj := range splitExpr(g.cond, token.LAND) {
+						allOnSrc, anyFloat, any := true, false, false
+						for _, d := range splitExpr(conj, token.LOR) {
+							pc, ok := d.(*ast.CallExpr)
+							if !ok || len(pc.Args) != 1 {
+								allOnSrc = false
+								continue
+							}
+							pf, _ := calleeOf(info, pc).(*types.Func)
+							if pf == nil || predKinds[pf] == nil {
+								allOnSrc = false
+								continue
+							}
+							arg := types.ExprString(pc.Args[0])
+							if aid := identOf(pc.Args[0]); aid != nil && typeAlias[info.ObjectOf(aid)] != "" {
+								arg = typeAlias[info.ObjectOf(aid)] + ".typ.TypeOf()"
+							}
+							if arg != srcName+".typ.TypeOf()" {
+								allOnSrc = false
+								continue
+							}
+							any = true
+							for k := range predKinds[pf] {
+								if kindClass[k] == "float" || kindClass[k] == "complex" {
+									anyFloat = true
+								}
+							}
+						}
+						if any && allOnSrc && !anyFloat {
+							mayFloat = false
+						}
+					}
+				}
+				r.Check(!mayFloat, "R02.11", fmt.Sprintf("%s/narrowing#%d/no-float-through-the-other-integer-class", name, n), ic.pos(c.Pos()), "the source cannot be a floating-point value here",
+					"generator "+name+" sets an "+map[string]string{"uint": "unsigned", "int": "signed"}[setter]+" destination from "+types.ExprString(c.Args[0])+", a value extracted as "+map[string]string{"int": "int64 (genValueInt)", "uint": "uint64 (genValueUint)"}[e.class]+" from "+srcName+", whose type is not known to exclude floating-point kinds on this path: a float source is narrowed through the other integer class (uint64(int64(f)) is 1<<63 for every f in [2^63, 2^64), where Go converts f directly)")
+				return true
+			})
+		}
+	}
+	r.Info["cross_class_integer_narrowings_checked"] = n
+}
+
+func splitExpr(e ast.Expr, op token.Token) []ast.Expr {
+	if be, ok := unparen(e).(*ast.BinaryExpr); ok && be.Op == op {
+		return append(splitExpr(be.X, op), splitExpr(be.Y, op)...)
+	}
+	return []ast.Expr{unparen(e)}
+}
